@@ -279,3 +279,37 @@ Proof.
   exists {| vt := TInt; elems := [SBool true; SInt 2] |}. split; [|vm_compute; discriminate].
   unfold typed. cbn. repeat constructor.
 Qed.
+
+(* ---------- independence of the copy, on the memory model of C12 ---------- *)
+From NV Require Import Model.Alias Proofs.C12Proofs.
+
+(* pickling / deep-copying the data of an object: the visible window is serialised and rebuilt in a
+   freshly allocated array (ndarray.__reduce__ / __deepcopy__), then adopted by the constructor *)
+Definition pickle_data (h : heap) (o : aobj) : heap * aobj :=
+  let '(h', a) := alloc h (contents h (ao_view o)) (r_cols (ao_ref o)) in (h', mk_obj a true).
+
+Theorem pickle_data_fresh h o h' c : pickle_data h o = (h', c) -> (r_buf (ao_ref o) < length h)%nat ->
+  r_buf (ao_ref c) = length h /\ r_buf (ao_ref c) <> r_buf (ao_ref o) /\
+  (forall b, (b < length h)%nat -> bufof h' b = bufof h b) /\
+  ao_start c = 0%nat /\ ao_count c = ao_count o.
+Proof.
+  unfold pickle_data, alloc. intro H. inversion H. subst. clear H. intro L. cbn [mk_obj ao_ref ao_start ao_count r_buf r_rows].
+  split; [reflexivity|]. split; [lia|]. split.
+  - intros b Hb. unfold bufof. apply app_nth1. exact Hb.
+  - split; [reflexivity|]. unfold contents. rewrite map_length, seq_length. reflexivity.
+Qed.
+
+(* hence (C12 isolation, applied with the original's array as "source" and the copy as "object"):
+   after ANY interleaving of writes to the original's array and writes / appends on the copy, the
+   original's memory is what the writes to the original alone made it, and the copy's memory and
+   geometry are what the operations on the copy alone made them *)
+Theorem pickled_copy_independent h o h' c ops : pickle_data h o = (h', c) -> (r_buf (ao_ref o) < length h)%nat ->
+  agree (r_buf (ao_ref o)) (fst (arun (ao_ref o) (h', c) ops)) (fst (run_side src_only (ao_ref o) (h', c) ops)) /\
+  agree (r_buf (ao_ref c)) (fst (arun (ao_ref o) (h', c) ops)) (fst (run_side obj_side (ao_ref o) (h', c) ops)) /\
+  snd (arun (ao_ref o) (h', c) ops) = snd (run_side obj_side (ao_ref o) (h', c) ops).
+Proof.
+  intros P L. destruct (pickle_data_fresh _ _ _ _ P L) as (F & D & _).
+  assert (D' : r_buf (ao_ref o) <> r_buf (ao_ref c)) by (intro E; apply D; symmetry; exact E).
+  split; [apply isolation_source; [exact D'|reflexivity]|].
+  apply isolation_object; [exact D'|reflexivity].
+Qed.
